@@ -54,8 +54,10 @@ theorem step_wf (s : LSt) (i : Item) (h : s.wf) : (step s i).wf := by
     | cons b r =>
       rw [hs, List.pairwise_cons] at h2
       have hb : b ≤ s.buried := h2.1 b (by simp)
-      refine ⟨by simp [step, hs]; omega, ?_⟩
-      simpa [step, hs] using h2.2
+      simp only [step, hs]
+      split
+      · exact ⟨by simp, by simpa using h2.2⟩
+      · exact ⟨by simp; omega, by simpa using h2.2⟩
   | newl =>
     simp only [step]
     split
